@@ -20,6 +20,7 @@ from inscripta.biocantor.gene.interval import (
     QualifierValue,
     IntervalType,
     AbstractFeatureIntervalCollection,
+    sort_interval_lists,
 )
 from inscripta.biocantor.io.bed import BED12, RGB
 from inscripta.biocantor.io.gff3.constants import GFF_SOURCE, NULL_COLUMN, BioCantorFeatureTypes, BioCantorQualifiers
@@ -60,6 +61,7 @@ class FeatureInterval(AbstractFeatureInterval):
         is_primary_feature: Optional[bool] = None,
         parent_or_seq_chunk_parent: Optional[Parent] = None,
     ):
+        interval_starts, interval_ends = sort_interval_lists(interval_starts, interval_ends)
         self._location = self.initialize_location(interval_starts, interval_ends, strand, parent_or_seq_chunk_parent)
         self._genomic_starts = interval_starts
         self._genomic_ends = interval_ends
